@@ -52,7 +52,8 @@ package main
 //@   at call github.com/pkg/diff.Text assert [C12] the-new-text-is-rendered-line-for-line: noCR(string(boxedSlice(arg3))) && nlTerminated(string(boxedSlice(arg3)))
 //@   at call github.com/pkg/diff.Text assert [C12] the-diff-shows-the-line-ends-of-the-text-on-disk: noCR(string(boxedSlice(arg2)))
 //@   at call github.com/pkg/diff.Text assert [C12] the-diff-shows-a-missing-final-newline-of-the-text-on-disk: nlTerminated(string(boxedSlice(arg2)))
-//@   at call github.com/pkg/diff.Text assert [C07,C12] the-diff-leads-from-the-bytes-on-disk-to-the-bytes-the-other-modes-emit: arg0 == filename0 && arg1 == filename0 && boxedSlice(arg2) == originalContent0 && boxedSlice(arg3) == modifiedContent0 && arg4 == cmd.Stdout
+//@   ensures [C12,C16] a-diff-that-could-not-be-delivered-is-reported: err == ret("github.com/pkg/diff.Text", 0)
+//@   at call github.com/pkg/diff.Text assert [C07,C12,C16] the-diff-leads-from-the-bytes-on-disk-to-the-bytes-the-other-modes-emit: arg0 == filename0 && arg1 == filename0 && boxedSlice(arg2) == originalContent0 && boxedSlice(arg3) == modifiedContent0 && arg4 == cmd.Stdout
 
 //@ func (r *patchRunner) Apply(filename, f) (fout, comments, matched)
 //@   requires typing: snapEnvOK()
@@ -64,11 +65,12 @@ package main
 //@   at call (*astdiff.Snapshot).Diff set snapCurrent = result0
 //@   at call engine.NewChangelog set lastChangelog = result0
 //@   at call engine.NewChangelog set changelogsMade = changelogsMade + 1
+//@   at call (*engine.Change).Match assert [C09,C10] every-change-is-tried-in-its-turn-on-the-file-as-it-stands: arg0 == prog.Changes[#k] && arg1 == f
 //@   at call (*engine.Change).Replace assert [C17] every-change-records-into-a-changelog-of-its-own: arg2 == lastChangelog && changelogsMade - old(changelogsMade) == changelogsUsed - old(changelogsUsed) + 1
 //@   at call (*engine.Change).Replace set changelogsUsed = changelogsUsed + 1
 //@   at call (*astdiff.Snapshot).Diff assert [C17] the-snapshot-is-advanced-with-the-regions-of-this-change: unbox(arg2, "S_engine_Changelog") == lastChangelog
 //@   at call main.cleanupFilePos assert [C17] only-the-regions-of-this-change-are-cleaned-up: arg1 == lastChangelog
-//@   assigns r.errors, elems(r.errors), group(ast), matchCount, replFail, sitesReplaced, restructured, inspections, importFailures, importsDeleted, lastChangelog, changelogsMade, changelogsUsed, snapCurrent, allof("F.S_astdiff_value.Comments")
+//@   assigns r.errors, elems(r.errors), group(ast), matchCount, replFail, sitesReplaced, restructured, inspections, importFailures, importsDeleted, deleteCalls, cleanups, commentsLeft, lastChangelog, changelogsMade, changelogsUsed, snapCurrent, allof("F.S_astdiff_value.Comments")
 //@   ensures [C16] recorded-errors-are-errors: forall i int {r.errors[i]} :: 0 <= i && i < len(r.errors) ==> r.errors[i] != nil
 //@   ensures [C06,C08,C09] matched-has-file: matched ==> fout != nil
 //@   ensures [C06] matched-only-after-match: matched ==> matchCount > old(matchCount)
@@ -158,7 +160,7 @@ package main
 //@   requires cmd.Stdout != nil && cmd.Stderr != nil
 //@   at effect disk-write assert [C12] dry-run-never-writes: !opts.Diff && !opts.Print
 //@   at effect disk-write assert [C06] only-matched-files-written: ok
-//@   at effect disk-write assert [C07] written-bytes-parse: Parses(string(arg1))
+//@   at effect disk-write assert [C07,C09] written-bytes-parse: Parses(string(arg1))
 //@   at effect disk-write assert [C12,C14,C15,C16] written-bytes-are-the-pipeline-output: arg0 == filename && string(arg1) == ite(opts.SkipImportProcessing, fmtNode(f), impProc(filename, fmtNode(f)))
 //@   at effect disk-write assert [C18] generated-skipped: !(opts.SkipGenerated && ret("main.checkGeneratedCode", 0))
 //@   at call main.findFiles assert [C15] relative-arguments-are-resolved-against-the-working-directory-as-reported: arg0 == ret("funcval:main.mainCmd.Getwd", 0) && arg1 == opts.Args.Patterns
@@ -177,11 +179,11 @@ package main
 //@   at call (*log.Logger).Printf where arg1 is "%s: skipped" assert [C06] print-only-echoes-an-unmatched-file: !ok && (opts.Print ==> echoes == echoMark + 1) && (!opts.Print ==> echoes == echoMark)
 //@   at call io.Writer.Write assert [C06] echo-original: !ok ==> (opts.Print && arg0 == cmd.Stdout && string(arg1) == disk[filename])
 //@   at call io.Writer.Write assert [C12,C14] print-pipeline-output: ok ==> (opts.Print && !opts.Diff && arg0 == cmd.Stdout && string(arg1) == ite(opts.SkipImportProcessing, fmtNode(f), impProc(filename, fmtNode(f))))
-//@   at call io.Writer.Write assert [C07] printed-bytes-parse: ok ==> Parses(string(arg1))
+//@   at call io.Writer.Write assert [C07,C09] printed-bytes-parse: ok ==> Parses(string(arg1))
 //@   at call io.Writer.Write assert [C18] generated-skipped: !(opts.SkipGenerated && ret("main.checkGeneratedCode", 0))
 //@   at call (*main.mainCmd).preview assert [C06] only-matched: ok
 //@   at call (*main.mainCmd).preview assert [C12,C14] diff-of-pipeline-output: opts.Diff && string(arg2) == disk[filename] && string(arg3) == ite(opts.SkipImportProcessing, fmtNode(f), impProc(filename, fmtNode(f)))
-//@   at call (*main.mainCmd).preview assert [C07] diffed-bytes-parse: Parses(string(arg3))
+//@   at call (*main.mainCmd).preview assert [C07,C09] diffed-bytes-parse: Parses(string(arg3))
 //@   at call (*main.mainCmd).preview assert [C18] generated-skipped: !(opts.SkipGenerated && ret("main.checkGeneratedCode", 0))
 //@   at call (*main.mainCmd).printComments assert [C06,C12] only-matched: ok
 //@   at call (*log.Logger).Printf where arg1 is "generated file %s: skipped" assert [C18] only-a-file-that-is-itself-generated-is-passed-over: opts.SkipGenerated && ret("main.checkGeneratedCode", 0)
@@ -309,7 +311,7 @@ package main
 
 //@ func (l *patchLoader) LoadReader(name, r) (err)
 //@   at call io.ReadAll assert [C03,C13,C19] the-reader-given-is-the-one-read-to-its-end: arg0 == r
-//@   at call funcval:main.patchLoader.parseAndCompile assert [C03,C13,C19] the-bytes-read-are-the-bytes-parsed-under-the-name-given: arg0 == l.fset && arg1 == name && arg2 == ret("io.ReadAll", 0, 0)
+//@   at call funcval:main.patchLoader.parseAndCompile assert [C03,C12,C13,C19] the-bytes-read-are-the-bytes-parsed-under-the-name-given: arg0 == l.fset && arg1 == name && arg2 == ret("io.ReadAll", 0, 0)
 //@   assigns l.progs, elems(l.progs)
 //@   ensures [C09,C13] loaded-appended-last: err == nil ==> len(l.progs) == old(len(l.progs)) + 1
 //@   ensures [C09] appended-are-wellformed: forall i int {l.progs[i]} :: old(len(l.progs)) <= i && i < len(l.progs) ==> wfProg(l.progs[i])
